@@ -32,7 +32,7 @@ RULE = ("case = static call structure (absdelta?, resnorm?, miniter None/int, ma
 ASSUMPTIONS = [
     "float64 (jax_enable_x64); CPU backend; systems of size <= 8 with kappa <= 1e3 (alphabet values, mixing selected by VERIF_SEED)",
     "compiled solver exercised through jax.jit with matrix, rhs and all numeric stopping parameters traced (the jittability use case of the test-suite)",
-    "criterion accepted within 1e3*eps*(|j|+|A||x|) of the threshold; solutions compared at max(1e-10, 1e4*eps*kappa) relative; runs whose criterion value is within 1e-6 relative of a threshold are not used for the agreement clause",
+    "criterion accepted within 1e3*eps*(|j|+|A||x|) of the threshold; solutions compared at 1e-10 relative for kappa<=10, and through their energies (1e-5 of E0-E*) for the kappa=1e3 members; runs whose criterion value is within 1e-6 relative (kappa<=10) or a factor 10 (kappa=1e3) of a threshold are not used for the agreement clause; the stop-at-first-opportunity rule is only asserted for kappa<=10",
     "previous iterate (needed for the energy-decrease criterion) obtained by re-running the eager solver with maxiter = nit-1; its energy is evaluated densely",
     "norm_ord left at its default; time_threshold and name (printing) not exercised",
 ]
@@ -266,8 +266,12 @@ def run_hpd(c):
                             xp = prev_iterate(r["nit"] - 1)
                             if xp is not None:
                                 dE = S.energy(A, j, xp) - E
-                        r["amb"] = bool((resn is not None and abs(rn - resn) <= 1e-6 * resn + sg) or
-                                        (dE is not None and abs(dE - cfg["absdelta"]) <= 1e-6 * cfg["absdelta"] + 2 * sE))
+                        if kappa <= 10 + 1e-9:
+                            r["amb"] = bool((resn is not None and abs(rn - resn) <= 1e-6 * resn + sg) or
+                                            (dE is not None and abs(dE - cfg["absdelta"]) <= 1e-6 * cfg["absdelta"] + 2 * sE))
+                        else:   # kappa = 1e3: late residuals of two floating-point realisations differ by O(1) factors
+                            r["amb"] = bool((resn is not None and resn / 10 <= rn + sg and rn <= 10 * resn + sg) or
+                                            (dE is not None and cfg["absdelta"] / 10 <= dE + 2 * sE and dE <= 10 * cfg["absdelta"] + 2 * sE))
                         crit_res = resn is not None and rn < resn + sg
                         crit_abs = dE is not None and dE < cfg["absdelta"] + 2 * sE
                         r["crit"] = bool(crit_res or crit_abs)
@@ -283,7 +287,7 @@ def run_hpd(c):
                                 V("hpd|%s|success-without-criterion" % solver,
                                   "%s reports info=0 at nit=%d but |Ax-j|=%.3e (resnorm %s), last energy decrease %s (absdelta %s)"
                                   % (where, r["nit"], rn, resn, dE, cfg["absdelta"]))
-                        if r["info"] == 0 and r["nit"] - 1 >= max(mi, 1):
+                        if r["info"] == 0 and r["nit"] - 1 >= max(mi, 1) and kappa <= 10 + 1e-9:
                             # the rule is "stop at the first iteration >= miniter at which a criterion holds"
                             xp = prev_iterate(r["nit"] - 1)
                             xpp = prev_iterate(r["nit"] - 2)
@@ -330,9 +334,15 @@ def run_hpd(c):
                         else:
                             V("hpd|disagree|verdict", "%s: eager info=%d nit=%d, static info=%d nit=%d" % (where, e["info"], e["nit"], s["info"], s["nit"]))
                     d = np.linalg.norm(e["x"] - s["x"])
-                    if d > max(1e-10, 1e4 * R.EPS * kappa) * max(1., np.linalg.norm(e["x"])):
-                        V("hpd|disagree|solution", "%s: |x_eager - x_static| = %.3e (nit %d / %d, info %d / %d)"
-                          % (where, d, e["nit"], s["nit"], e["info"], s["info"]))
+                    if kappa <= 10 + 1e-9:
+                        if d > 1e-10 * max(1., np.linalg.norm(e["x"])):
+                            V("hpd|disagree|solution", "%s: |x_eager - x_static| = %.3e (nit %d / %d, info %d / %d)"
+                              % (where, d, e["nit"], s["nit"], e["info"], s["info"]))
+                    elif abs(e["E"] - s["E"]) > KRYLOV_TOL * gap0 + sE:
+                        # ill-conditioned alphabet members: two floating-point realisations of the same iterate differ by
+                        # as much as the iterate's own error, so they are compared in the energy (A-norm of the error)
+                        V("hpd|disagree|solution", "%s: E(x_eager) - E(x_static) = %.3e, |dx| = %.3e (nit %d / %d, info %d / %d)"
+                          % (where, e["E"] - s["E"], d, e["nit"], s["nit"], e["info"], s["info"]))
     event = {"none": st["conv_by_criterion"], "at": st["conv_exactly_at_maxiter"], "before": st["stopped_by_maxiter"]}[c["maxmode"]]
     if found:
         keys = sorted(found)
